@@ -11,13 +11,16 @@ def sh(cmd, **kw):
 
 def main():
     if sys.argv[1] == '--clean':
-        sh('git -C /repo worktree remove --force /tmp/vf_seedrepo'); sh('rm -rf /tmp/vf_seedrepo %s/build_alt' % V); sh('git -C /repo worktree prune'); return 0
+        import glob
+        for wt in glob.glob('/tmp/vf_seedrepo*'):
+            sh('git -C /repo worktree remove --force %s' % wt); sh('rm -rf %s' % wt)
+        sh('rm -rf %s/build_alt %s/build_alt_*' % (V, V)); sh('git -C /repo worktree prune'); return 0
     seed = sys.argv[1]
     d = os.path.join(V, 'seeded', seed)
     props = sys.argv[2:] or [seed.split('-')[0]]
     tier = os.environ.get('SEED_TIER', 'quick')
     # the seeded change is applied to a scratch worktree of /repo's HEAD (never to /repo itself); the checks build from it through VERIF_REPO
-    WT = '/tmp/vf_seedrepo'
+    WT = os.environ.get('SEED_WT', '/tmp/vf_seedrepo')     # parallel lanes (one per group of properties) use /tmp/vf_seedrepo_<k>
     head = sh('git -C /repo rev-parse HEAD').stdout.strip()
     if not os.path.isdir(WT):
         r = sh('git -C /repo worktree add --detach %s HEAD' % WT)
